@@ -394,7 +394,11 @@ def jit_in_child(merged, cases, kernels, out_path):
 
 
 def right_nested(e) -> bool:
-    """Does the IR contain a + (b + c) or a * (b * c) (the shapes the C printer re-associates)?"""
+    """Does the IR contain a + (b + c) or a * (b * c) in a position where the C printer prints the operands
+    in a row (the shapes it re-associates)?  The accumulation t = t + (x + y) does not count: it is printed as
+    the compound assignment t += x + y, which C evaluates in the IR's order."""
+    if isinstance(e, ir.Assignment) and isinstance(e.value, (ir.Add, ir.Subtract, ir.Multiply)) and e.value.left == e.target:
+        return right_nested(e.value.right) or right_nested(e.target)
     if isinstance(e, (ir.Add, ir.Multiply)):
         if type(e.right) is type(e):
             return True
